@@ -96,5 +96,12 @@ PROPS = {
                      "forward bound (48+8n)*2^-24*(propagated sum of |terms|), n = samples in the run; largest observed ratio reported per stream/component",
                      "dimension checking compiled in (debug build) for the panic clause"],
     ),
+    "C12": dict(
+        run=native, level=EXPL, technique="runtime reference-model monitor (exact i64 window weights + f64 weighted average; one-step EWMA law with the crate's own powf), panic capture, bit-exact f32-vs-Quantity differential",
+        rule="seeded histories of <=64 events (present with non-decreasing, 15% repeated, stamps; absent; two errors), steps 1ns..1h, windows 1ns..10h incl. windows shorter than a step and longer than the history, smoothing in {0,1,2^-k,U(0,1)}, every 7th history constant-valued; all four filter variants driven by the same history; distinct = (set of window occupancies seen, window decade, smoothing quartile, has-error, has-absent)",
+        assumptions=["non-decreasing timestamps and positive windows only (negative dt / non-positive windows are outside the quantifier)",
+                     "EWMA checked one step at a time against prev*(1-L)+new*L with prev = the stream's own previous output and L = 1 - powf(1-s, dt) using the crate's powf obtained through ExponentStream; bound 24*2^-24*(|prev|+|new|)",
+                     "moving average bound (48+8n)*2^-24*sum(w_i|x_i|)/W, n = samples in the window; first sample within 4 ulp (x*W/W is two roundings)"],
+    ),
 }
 NOT_APPLICABLE = {}
